@@ -72,6 +72,10 @@ def build(case, d, tr, bound=None, permute_seed=None, shared=None):
     def on_plan(observation, plan, clock):
         tr.plans[observation.name] = {'plan': plan, 'clock': clock, 't': env.now,
                                       'task_ids': [t.id for t in plan.tasks]}
+        for t in plan.tasks:
+            gid = getattr(t, 'graph_id', None)
+            if gid is not None:
+                tr.tidmap[t.id] = (observation.name, str(gid))
         o = tr.obs.get(observation.name)
         if o is not None:
             o['plan_t'] = env.now
